@@ -484,6 +484,12 @@ class Report:
 
     # -- evidence ----------------------------------------------------------
     def finish(self, checker_cmd, rule, exhaustive=False, explanation=None):
+        # safety net: an obligation that was not discharged is a violation, whatever the check's own verdict logic
+        # did with it (e.g. failures matching a known finding must not hide a broken proof or a disagreement)
+        undone = [o for o in self.obligations if not o["ok"]]
+        if undone and not self.violations:
+            self.violation("obligation(s) not discharged: " + "; ".join(o["name"][:120] for o in undone[:3]),
+                           {"broken": [o["name"] for o in undone], "details": [o["detail"] for o in undone[:3]]}, nofail=True)
         obl = len(self.obligations)
         dis = sum(1 for o in self.obligations if o["ok"])
         cov = {
